@@ -186,17 +186,28 @@ func recordArtifacts(paths []string, hashAlgorithms []string, gitignorePatterns 
 					visitedSymlinks.Add(path)
 					// We recursively call recordArtifacts() to follow
 					// the new path.
-					evalArtifacts, evalErr := recordArtifacts([]string{evalSym}, hashAlgorithms, gitignorePatterns, lStripPaths, lineNormalization, followSymlinkDirs, visitedSymlinks)
+					// The artifacts found below the target are recorded under the
+					// path of the symlink; the prefix is stripped from that path,
+					// not from the path of the target.
+					evalArtifacts, evalErr := recordArtifacts([]string{evalSym}, hashAlgorithms, gitignorePatterns, nil, lineNormalization, followSymlinkDirs, visitedSymlinks)
 					if evalErr != nil {
 						return evalErr
 					}
 					for key, value := range evalArtifacts {
+						symlinkPath := path
 						if targetIsDir {
-							symlinkPath := filepath.Join(path, strings.TrimPrefix(key, evalSym))
-							artifacts[symlinkPath] = value
-						} else {
-							artifacts[path] = value
+							symlinkPath = filepath.Join(path, strings.TrimPrefix(key, evalSym))
 						}
+						for _, strip := range lStripPaths {
+							if strings.HasPrefix(symlinkPath, strip) {
+								symlinkPath = strings.TrimPrefix(symlinkPath, strip)
+								break
+							}
+						}
+						if _, exists := artifacts[symlinkPath]; exists {
+							return fmt.Errorf("left stripping has resulted in non unique dictionary key: %s", symlinkPath)
+						}
+						artifacts[symlinkPath] = value
 					}
 					return nil
 				}
